@@ -1,8 +1,13 @@
+mod c_init;
 mod c_pdu;
 mod c_seq;
 mod checks;
 mod clock;
 mod enginef;
+mod engines;
+mod esc;
+mod netgen;
+mod world;
 mod fiber;
 mod hb;
 mod pduscen;
@@ -20,6 +25,8 @@ fn lookup(property: &str, check: &str) -> Option<Box<CaseFn>> {
             let prop = c_pdu::prop_of(property)?;
             Some(Box::new(move |rs, nonce, replay| c_pdu::case(prop, false, rs, nonce, replay)))
         }
+        ("C09", "init") => Some(Box::new(c_init::case_clean)),
+        ("C09", "init-dev-lag") => Some(Box::new(c_init::case_lag)),
         ("C04", "push-programs") => Some(Box::new(c_seq::c04_case)),
         ("C05", "hostile-frames") => Some(Box::new(c_seq::c05_case)),
         _ => None,
@@ -46,6 +53,7 @@ fn main() {
             let tier = args.get(2).map(|s| s.as_str()).unwrap_or("quick");
             c_pdu::run_property(id, tier, seed, workers)
         }
+        "C09" => c_init::run_c09(args.get(2).map(|s| s.as_str()).unwrap_or("quick"), seed, workers),
         "C04" => c_seq::run_c04(args.get(2).map(|s| s.as_str()).unwrap_or("quick"), seed, workers),
         "C05" => c_seq::run_c05(args.get(2).map(|s| s.as_str()).unwrap_or("quick"), seed, workers),
         other => {
